@@ -103,4 +103,81 @@ def rootremBasecase (U nth : Nat) : Option (Nat × Nat) :=
               else bcNewton U un nth xn xnb (nv - 1) (xnb + 1) x nv        -- :149 adj = n_valid_bits - 1
       bcDone U nth xn x
 
+/-! ## mpn_rootrem_internal (rootrem.c:135-423) and the dispatcher mpn_rootrem (rootrem.c:78-132) -/
+
+/-- the bit-size schedule, rootrem.c:215-233: `b = xnb - 1; ni = 0; while (b != 0) { sizes[ni] = b; b = (b + logk + 1) / 2;
+    if (b >= sizes[ni]) b = sizes[ni] - 1; ni++; } sizes[ni] = 0;` — the list `sizes[0], …, sizes[ni]`.
+    The fuel is the capacity of `sizes[GMP_NUMB_BITS + 1]`; a list that does not end in 0 means it was exceeded. -/
+def rrSizes (logk : Nat) : Nat → Nat → List Nat
+  | 0, _ => []
+  | fuel + 1, b =>
+      if b = 0 then [0] else
+      let c := (b + logk + 1) / 2                          -- :228
+      let c := if c ≥ b then b - 1 else c                  -- :229-230
+      b :: rrSizes logk fuel c
+
+/-- the correction loop rootrem.c:377-403 together with `ASSERT_ALWAYS (c <= 1)` (:407) and the subtraction
+    (:411-415): `sn` is the limb count of the candidate (not updated by `MPN_DECR_U`), `Uk = ⌊U / 2^kk⌋`.
+    `wantW`: not the last round (W ← S^(k-1) by mpn_pow_1 (wp, sp, sn, k - 1, qp), S^k = W·S).
+    Result (S, R, W). -/
+def rrCorrect (k Uk sn S W : Nat) (wantW : Bool) : Option (Nat × Nat × Nat) := do
+  let w0 ← pow1 sn S (k - 1)                               -- c = 0 (:392 / :386: mpn_pow_1 on {sp, sn})
+  if w0 * S ≤ Uk then some (S, Uk - w0 * S, if wantW then w0 else W)
+  else
+    let S1 := S - 1                                        -- :400 MPN_DECR_U (sp, sn, 1)
+    let w1 ← pow1 sn S1 (k - 1)                            -- c = 1
+    if w1 * S1 ≤ Uk then some (S1, Uk - w1 * S1, if wantW then w1 else W)
+    else none                                              -- a second decrement: ASSERT_ALWAYS (c <= 1) fires
+
+/-- one round of the loop rootrem.c:242-419; state (S, R, W, kk), `b = sizes[i-1] - sizes[i]`,
+    `last` = (i == 1).  Result (S, R, W, kk, approx). -/
+def rrStep (U k b : Nat) (last approx : Bool) (st : Nat × Nat × Nat × Nat) :
+    Option (Nat × Nat × Nat × Nat × Bool) :=
+  let (S, R, W, kk) := st
+  let kk := kk - b                                         -- :270 (after R <<= b, :262-268)
+  let R := R * 2 ^ b + (U >>> kk) % 2 ^ b                  -- :274-297 insert bits [kk, kk+b-1] of U
+  let W := W * k                                           -- :302-304 k * S^(k-1)
+  let Q := R / W                                           -- :309-318 (qn = 0 when rn < wn)
+  let Q := if Q ≥ 2 ^ b then 2 ^ b - 1 else Q              -- :331-339 the quotient should be smaller than 2^b
+  let S := S * 2 ^ b + Q                                   -- :344-362
+  let sn := limbLen S
+  let kk := kk - (k - 1) * b                               -- :369
+  let Uk := U >>> kk                                       -- :371-373 {rp, rn} = floor (U / 2^kk)
+  if last then
+    let approx := approx && decide (S % B > 1)             -- :385 approx = approx && (sp[0] > 1)
+    if approx then some (S, Uk, W, kk, true)               -- :386 qn = 0: no comparison, no subtraction (:411)
+    else (rrCorrect k Uk sn S W false).map fun (S, R, W) => (S, R, W, kk, false)
+  else (rrCorrect k Uk sn S W true).map fun (S, R, W) => (S, R, W, kk, approx)
+
+/-- `for (i = ni; i != 0; i--)` over the schedule listed from `sizes[ni] = 0` upwards. -/
+def rrLoop (U k : Nat) (approx : Bool) : List Nat → Nat × Nat × Nat × Nat → Option (Nat × Nat × Bool)
+  | hi :: lo :: rest, st => do
+      let (S, R, W, kk, ap) ← rrStep U k (lo - hi) rest.isEmpty approx st
+      if rest.isEmpty then some (S, R, ap) else rrLoop U k ap (lo :: rest) (S, R, W, kk)
+  | _, (S, R, _, _) => some (S, R, approx)
+
+/-- mpn_rootrem_internal ({up, un} = U ≥ 1, k ≥ 2, approx): (root, R, approx still on).  With `approx` still on, R is
+    `U` itself (non-zero) and the root may be one too large. -/
+def rootremInternal (U k : Nat) (approx : Bool) : Option (Nat × Nat × Bool) :=
+  let unb := bitLen U                                      -- :154-155
+  let xnb := (unb - 1) / k + 1                             -- :158
+  if xnb = 1 then some (1, U - 1, false)                   -- :161-173 root is 1 (before any temporary is allocated)
+  else
+    let kk := k * (xnb - 1)                                -- :202
+    let R := (U >>> kk) - 1                                -- :203-205
+    let logk := if bitLen (k - 1) = 0 then 1 else bitLen (k - 1)   -- :211-212
+    let sizes := rrSizes logk 66 (xnb - 1)                 -- :215-233
+    if sizes.getLast? ≠ some 0 ∨ sizes.length > 65 then none        -- :234 ASSERT_ALWAYS (ni < GMP_NUMB_BITS + 1)
+    else rrLoop U k approx sizes.reverse (1, R, 1, kk)     -- :208, :240-242
+
+/-- mpn_rootrem ({up, un} = U, k), `un = limbLen U`; `wantRem = false` is `remp == NULL`: then only zero / non-zero of
+    the second component is returned. -/
+def rootrem (U k : Nat) (wantRem : Bool) : Option (Nat × Nat) :=
+  let un := limbLen U
+  if un < Mpir.Gen.SqrtTabs.rootremThreshold then rootremBasecase U k        -- :86-100
+  else if !wantRem && un / k > 2 then                      -- :103
+    -- :112-118 pad with k zero limbs; :124 MPN_COPY (rootp, sp + 1, sn - 1)
+    (rootremInternal (U * B ^ k) k true).map fun (S, R, _) => (S / B, R)
+  else (rootremInternal U k false).map fun (S, R, _) => (S, R)              -- :130
+
 end Mpir.Rootrem
